@@ -689,6 +689,10 @@ func (c *Ctx) TraceCheck(f *Family, cases []json.RawMessage) {
 			}
 		}
 		confirmed, failed := -1, false
+		if os.Getenv("VERIF_CONFIRM_CHILD") == "1" { // this process IS the fresh-process confirmation of its parent
+			confirmed = idx
+			cands = nil
+		}
 		for _, j := range cands {
 			confirm := []json.RawMessage{cases[j]}
 			for r := 0; r < f.Retries; r++ {
@@ -709,12 +713,46 @@ func (c *Ctx) TraceCheck(f *Family, cases []json.RawMessage) {
 			continue
 		}
 		if confirmed < 0 {
+			// the rejection may depend on process-wide state that the first run itself changed (a pooled scratch area that
+			// has grown since): re-run the case in a fresh process, which settles it from a pristine state
+			for _, j := range cands[:minInt(len(cands), 3)] {
+				if c.confirmInChild(f, cases[j]) {
+					confirmed = j
+					break
+				}
+			}
+		}
+		if confirmed < 0 {
 			c.Infra("rejected case did not reproduce (family %s, sig %s): %s", f.Name, s, string(cases[idx]))
 			continue
 		}
 		idx = confirmed
 		c.report(f, s, cases[idx], out.mismatch[idx], len(bySig[s]))
 	}
+}
+
+func minInt(a, b int) int {
+	if a < b {
+		return a
+	}
+	return b
+}
+
+// confirmInChild re-runs one case in a fresh process (VERIF_CONFIRM_CHILD: no nested confirmation there) and reports
+// whether that process found a violation.
+func (c *Ctx) confirmInChild(f *Family, cs json.RawMessage) bool {
+	p := filepath.Join(c.Work, fmt.Sprintf("confirm-%d.json", time.Now().UnixNano()))
+	b, _ := json.Marshal(map[string]interface{}{"property": c.Prop, "family": f.Name, "case": cs})
+	if os.WriteFile(p, b, 0o644) != nil {
+		return false
+	}
+	defer os.Remove(p)
+	cctx, cancel := context.WithTimeout(context.Background(), 10*time.Minute)
+	defer cancel()
+	cmd := exec.CommandContext(cctx, os.Args[0], c.Prop, "--tier", c.Tier, "--replay", p)
+	cmd.Env = append(os.Environ(), "VERIF_CONFIRM_CHILD=1", "VERIF_EVIDENCE_DIR="+filepath.Join(c.Work, "child-evidence"))
+	cmd.Run()
+	return cmd.ProcessState != nil && cmd.ProcessState.ExitCode() == 1
 }
 
 // caseDeadline: how long one driver case may run before it counts as not terminating (VERIF_CASE_DEADLINE seconds)
